@@ -9,6 +9,7 @@ import (
 	"regexp"
 	"strings"
 	"testing"
+	"time"
 
 	"gosrc.io/xmpp/stanza"
 
@@ -54,7 +55,13 @@ func c12body(seq []int, sm bool, writeFails bool, reset bool, mode string) func(
 		// mode "handler-waits": the handlers of inbound stanzas block until the disconnection has been
 		// reported (an application that cleans up on the Disconnected event).
 		// mode "second-connection": the connection under test is the second one of the same client.
-		s := newSess(sessOpts{sm: sm, smResume: sm, keepalive: 3600, noCatchAll: mode == "handler-waits"})
+		// mode "cut-on-tick": the keepalive interval is 7 s and the connection is cut at exactly 7 s: the keepalive
+		// goroutine is woken by its ticker at the moment the receive loop learns of the loss
+		ka := int64(3600)
+		if mode == "cut-on-tick" {
+			ka = 7
+		}
+		s := newSess(sessOpts{sm: sm, smResume: sm, keepalive: ka, noCatchAll: mode == "handler-waits"})
 		if s.cl == nil {
 			return
 		}
@@ -146,6 +153,9 @@ func c12body(seq []int, sm bool, writeFails bool, reset bool, mode string) func(
 				return -1, nil
 			}
 		}
+		if mode == "cut-on-tick" {
+			vrt.Sleep(7*time.Second - vrt.VNow())
+		}
 		vrt.Quiet(false)
 		if cut > 0 {
 			conn.send(full[:cut])
@@ -163,6 +173,11 @@ func c12body(seq []int, sm bool, writeFails bool, reset bool, mode string) func(
 		}
 		vrt.WaitIdle()
 		vrt.Quiet(true)
+		if mode == "cut-on-tick" {
+			// a keepalive that is still running would show itself within a few intervals
+			vrt.Sleep(30 * time.Second)
+			vrt.WaitIdle()
+		}
 		// --- oracle
 		where := "between-elements"
 		complete := 0
@@ -285,6 +300,8 @@ func TestVerifC12(t *testing.T) {
 						Opt: vrt.Options{Bound: bound, Horizon: 100000}, Body: c12body(q, sm, wf, rst, ""), Verdict: c12verdict})
 				}
 				if !wf && len(q) <= 2 {
+					scs = append(scs, hx.Scenario{Name: fmt.Sprintf("seq=%s/sm=%v/mode=cut-on-tick", strings.Join(n, ","), sm),
+						Opt: vrt.Options{Bound: 1, Horizon: 100000}, Body: c12body(q, sm, false, false, "cut-on-tick"), Verdict: c12verdict})
 					for _, mode := range []string{"handler-waits", "second-connection", "reconnected-from-handler", "eof-with-data", "logger-eof-with-data"} {
 						scs = append(scs, hx.Scenario{Name: fmt.Sprintf("seq=%s/sm=%v/mode=%s", strings.Join(n, ","), sm, mode),
 							Opt: vrt.Options{Bound: bound, Horizon: 100000}, Body: c12body(q, sm, false, false, mode), Verdict: c12verdict})
